@@ -3,6 +3,7 @@ package props
 import (
 	"strings"
 
+	"github.com/nlnwa/whatwg-url/canonicalizer"
 	"github.com/nlnwa/whatwg-url/url"
 	"pgregory.net/rapid"
 
@@ -227,6 +228,33 @@ func Check06(c Case06, r *core.Rec) {
 		}
 	}
 
+	// ---- (d') the opaque-path law for every Parser: a profile's ParseRef must not accept what the URL
+	// it wraps refuses. For a base that the profile parses to an opaque path, a scheme-less reference
+	// that does not start with '#' fails through the profile's ParseRef too; and the WhatWg profile,
+	// which canonicalizes nothing, agrees with the package functions on every (base, reference).
+	if opaque {
+		pre := preprocess(ref)
+		if !hasSchemePrefix(pre) && !strings.HasPrefix(pre, "#") {
+			for _, pr := range c06Profiles {
+				if pb, perr := pr.p.Parse(B0); perr != nil || pb == nil || !pb.OpaquePath() {
+					continue
+				}
+				if pu, perr := pr.p.ParseRef(B0, ref); perr == nil {
+					r.Failf("law d: base %s has an opaque path but %s.ParseRef accepts the relative reference %s (result %s)", quote(B0), pr.name, quote(ref), pu.Href(false))
+					return
+				}
+				r.Class("d:profile-opaque-rejects")
+			}
+		}
+	}
+	{
+		wu, werr := canonicalizer.WhatWg.ParseRef(B0, ref)
+		if (werr == nil) != (e1 == nil) || (e1 == nil && sameURL(wu, u1) != "") {
+			r.Failf("law a: canonicalizer.WhatWg.ParseRef(%s, %s) differs from url.ParseRef (err %v vs %v)", quote(B0), quote(ref), werr, e1)
+			return
+		}
+	}
+
 	// ---- (e) query-only --------------------------------------------------------------------------------
 	if !opaque {
 		qr := "?" + string(c.Query)
@@ -271,6 +299,11 @@ func Check06(c Case06, r *core.Rec) {
 		r.Class("f:" + baseKind(b))
 	}
 }
+
+var c06Profiles = []struct {
+	name string
+	p    url.Parser
+}{{"WhatWg", canonicalizer.WhatWg}, {"WhatWgSortQuery", canonicalizer.WhatWgSortQuery}, {"GoogleSafeBrowsing", canonicalizer.GoogleSafeBrowsing}, {"Semantic", canonicalizer.Semantic}}
 
 func obsName(i int) string {
 	return [...]string{"href", "protocol", "username", "password", "host", "hostname", "port", "pathname", "search", "hash"}[i]
